@@ -16,7 +16,7 @@ def pathOf (s : String) : Path :=
 def idTok (o : Option Nat) : String := match o with | some v => toString v | none => "nil"
 def tokId (s : String) : Option Nat := if s == "nil" then none else s.toNat?
 
-def step (st : St) (n : Nat) (ln : Line) : St × List String :=
+def stepCore (st : St) (n : Nat) (ln : Line) : St × List String :=
   let a := ln.args
   let o := ln.outs
   match ln.op with
@@ -53,5 +53,15 @@ def step (st : St) (n : Nat) (ln : Line) : St × List String :=
       | some cls => [specfail n cls (a.getD 0 "")]
     (st, diff n ln [idTok m] ++ j ++ [if m.isSome then "COV get.hit" else if (sub st.t p).isSome then "COV get.placeholder" else "COV get.miss"])
   | _ => (st, [s!"DIFF {n} unknown-op {ln.op}"])
+
+/-- a call that panicked or did not return is a failure of the cache on that operation: besides the
+    DIFF (the model never predicts it) the judge reports it, so that the check has a concrete replay -/
+def step (st : St) (n : Nat) (ln : Line) : St × List String :=
+  let (st', msgs) := stepCore st n ln
+  let crash :=
+    if ln.outs.contains "panic" then [specfail n s!"{ln.op}/panics" (String.intercalate " " ln.args)]
+    else if ln.outs.contains "hang" then [specfail n s!"{ln.op}/hangs" (String.intercalate " " ln.args)]
+    else []
+  (st', msgs ++ crash)
 
 def main : IO Unit := run { init := ({} : St), step := step }
